@@ -274,6 +274,12 @@ class StmtMixin:
             ct = fr.ctypes.get(target.id)
             if ct and v is not None:
                 v = self.coerce_ctype(v, ct)
+            elif isinstance(v, Obj) and v.kind is None and fr.depth == 0:
+                # untyped Python local: the contract may declare what kind of object it holds (e.g. an array)
+                sp = self.contract.sorts.get(target.id)
+                if isinstance(sp, str) and (sp.startswith('arr:') or sp.startswith('seq:') or sp.startswith('ref:')):
+                    w = self.wrap(v.ref, sp.rstrip('!'))
+                    v = w
             st.locals[target.id] = v
             return
         if isinstance(target, (ast.Tuple, ast.List)):
